@@ -315,4 +315,4 @@ mod tests {
 
 #[cfg(kani)]
 #[path = "/verif/harness/may/sync_semphore.rs"]
-mod verif_kani;
+pub(crate) mod verif_kani;
